@@ -117,4 +117,93 @@ def lastTimeout : List Setter → Option (Option Nat)
     | some t => some t
     | none => match s with | .timeout t => some t | _ => none
 
+/-! ### configuration carried through preparation
+
+  * `StatementConfig` (`scylla/src/statement/mod.rs:27-44`): all eleven fields (those C06 does not read as opaque tags).
+  * `RawPreparedStatement::into_prepared_statement` (`scylla/src/statement/prepared.rs:86-108`): the prepared statement
+    gets `statement.config.clone()` - the WHOLE config -, the contents, the validated page size, and the tracing id
+    of the PREPARE if there was one.  (`Session::prepare` -> `prepare_nongeneric` -> `prepare_on_all`,
+    `session.rs:1623-1700`, builds the result with it.)
+  * `Session::prepare_batch` (`session.rs:1945-1963`): `batch.clone()`, then every `BatchStatement::Query` is replaced
+    by `PreparedStatement(prepare_nongeneric(query)?)`; prepared statements and the batch's own config stay; the first
+    failing PREPARE makes the whole call fail.
+-/
+
+/-- `StatementConfig` (`statement/mod.rs:27-44`). -/
+structure FullStmtCfg where
+  cl : Option Consistency
+  serial : Option (Option Nat)
+  idem : Bool
+  skipResultMetadata : Bool
+  tracing : Bool
+  timestamp : Option Int
+  timeout : Option Nat
+  /-- which history listener object, if any (tag) -/
+  historyListener : Option Nat
+  profile : Option Profile
+  /-- which load-balancing policy object, if any (tag) -/
+  lbp : Option Nat
+  policy : Option Policy
+  deriving DecidableEq, Repr, Inhabited
+
+/-- What the parameter selection (`RetryPager.newForSessionApis`) reads of it. -/
+def FullStmtCfg.toStmtCfg (c : FullStmtCfg) : StmtCfg := ⟨c.idem, c.cl, c.policy, c.timeout, c.profile⟩
+
+/-- `Statement` (`statement/unprepared.rs`). -/
+structure Stmt where
+  contents : String
+  pageSize : Nat
+  config : FullStmtCfg
+  deriving DecidableEq, Repr, Inhabited
+
+/-- `PreparedStatement` (`statement/prepared.rs`): what `PreparedStatement::new` is given + the tracing ids. -/
+structure Prepared where
+  id : Nat
+  isLwt : Bool
+  contents : String
+  pageSize : Nat
+  config : FullStmtCfg
+  tracingIds : List Nat
+  deriving DecidableEq, Repr, Inhabited
+
+/-- `into_prepared_statement` (`prepared.rs:86-108`); `id`, `isLwt`, `tracingId` come from the PREPARE response. -/
+def intoPrepared (st : Stmt) (id : Nat) (isLwt : Bool) (tracingId : Option Nat) : Prepared :=
+  { id := id, isLwt := isLwt, contents := st.contents, pageSize := st.pageSize, config := st.config
+    tracingIds := match tracingId with | some t => [t] | none => [] }
+
+inductive BatchStmt where
+  | query (s : Stmt)
+  | prepared (p : Prepared)
+  deriving DecidableEq, Repr, Inhabited
+
+/-- the config that travels with a batch statement -/
+def BatchStmt.config : BatchStmt → FullStmtCfg
+  | .query s => s.config
+  | .prepared p => p.config
+
+def BatchStmt.isPrepared : BatchStmt → Bool
+  | .query _ => false
+  | .prepared _ => true
+
+/-- `Batch` (`statement/batch.rs:23-33`). -/
+structure Batch where
+  config : FullStmtCfg
+  statements : List BatchStmt
+  batchType : Nat
+  deriving DecidableEq, Repr, Inhabited
+
+/-- The statements of `prepare_batch`; `prep i` = the PREPARE result for the statement at position `i`
+(`none`: it failed; else id and LWT flag). -/
+def prepareStmts (prep : Nat → Option (Nat × Bool)) : Nat → List BatchStmt → Option (List BatchStmt)
+  | _, [] => some []
+  | i, .prepared p :: rest => (prepareStmts prep (i + 1) rest).map (fun l => .prepared p :: l)
+  | i, .query s :: rest =>
+    match prep i with
+    | none => none
+    | some (id, lwt) => (prepareStmts prep (i + 1) rest).map (fun l => .prepared (intoPrepared s id lwt none) :: l)
+
+/-- `Session::prepare_batch` (`session.rs:1945-1963`). -/
+def prepareBatch (b : Batch) (prep : Nat → Option (Nat × Bool)) : Option Batch :=
+  (prepareStmts prep 0 b.statements).map (fun l => { b with statements := l })
+
 end ScyllaVerif.RetryProfile
